@@ -84,6 +84,14 @@ ByGet(cl, d, reqL) == \A x \in d : Get(cl.gotByGet, x, 0) > reqL
 (* direct count, taken at request time, kept them in state sent.              *)
 ByDrop(cl, d, reqL) == \A x \in d : Get(cl.dropped, x, 0) > 0
 
+(* KF-U, second part: a resource marked unsent on this connection (and not disposed since) is sent again with content *)
+(* that differs from every candidate of the announced state - the snapshot taken when it was loaded                   *)
+StaleResend(cl, set) ==
+    \E rid \in DOMAIN SetRes(set) \cap cl.unsent :
+        LET k == KeyOf(cl, rid)
+            a == AnnOf(o.ann, Get(o.norm, k, k))
+        IN a.st = "ld" /\ ~\E x \in a.cands : Encode(x, cl.lg) = SetRes(set)[rid]
+
 (* resources whose data the gateway delivered only inside a stray event that one of the findings explains: the client *)
 (* ignores such an event, the gateway considers the resources sent and omits them afterwards                         *)
 ByStray(cl, d) == d # {} /\ \A x \in d : x \in DOMAIN cl.strayGot
@@ -188,7 +196,7 @@ H_cres(r) ==
     ELSE
     LET req == cl0.pend[r.id]
         isGet == cl0.pend[r.id].m = "get"
-        cl1 == [cl0 EXCEPT !.pend = Del(cl0.pend, r.id), !.rn = r.rn @@ cl0.rn,
+        cl1 == [cl0 EXCEPT !.pend = Del(cl0.pend, r.id), !.rn = r.rn @@ cl0.rn, !.taintU = @ \/ StaleResend(cl0, r.set),
                            !.gotByGet = IF isGet THEN @ ELSE [x \in DOMAIN @ \ DOMAIN SetRes(r.set) |-> @[x]]]
         shapeV == IF r.shape THEN {} ELSE {V("C07", "error response without string code/message", "")}
         res1 == SetRes(r.set) @@ cl1.res
@@ -288,10 +296,12 @@ RecheckViol(cl, r) ==
 
 H_cev(r) ==
     LET cl0 == o.conns[r.c]
-        cl1 == [cl0 EXCEPT !.rn = r.rn @@ cl0.rn, !.gotByGet = [x \in DOMAIN @ \ DOMAIN SetRes(r.set) |-> @[x]]]
+        cl1 == [cl0 EXCEPT !.rn = r.rn @@ cl0.rn, !.gotByGet = [x \in DOMAIN @ \ DOMAIN SetRes(r.set) |-> @[x]], !.taintU = @ \/ StaleResend(cl0, r.set)]
         leakV == IF r.leak = <<>> THEN {} ELSE {V("C10", "connection id in event frame", "")}
         H == Held(cl1.direct, cl1.res)
-        kfU == IF cl1.taintU THEN "KF-U"
+        \* KF-U also: Unsend leaves the subscription un-queued, so events keep flowing for a resource the gateway itself
+        \* considers unsent (rightly or not) until it is sent again or disposed
+        kfU == IF cl1.taintU \/ r.rid \in cl1.unsent THEN "KF-U"
                ELSE IF cl1.taintG \/ r.rid \in DOMAIN cl1.gotByGet THEN "KF-G"
                ELSE IF cl1.taintW \/ \E i \in DOMAIN cl1.pend : cl1.pend[i].m \in {"subscribe", "get", "new", "call", "auth"} /\ cl1.pend[i].l < Get(cl1.dropped, r.rid, 0) THEN "KF-W"
                ELSE ""
@@ -636,7 +646,9 @@ H_mres(r) ==
                   hit == {rid \in DOMAIN cl.recheck : cl.recheck[rid].k = r.k}
                   hitOld == {rid \in DOMAIN cl.recheck : cl.recheck[rid].k = 0 /\ cl.recheck[rid].old = r.k}
                   code == IF ok THEN "system.accessDenied" ELSE r.code
-                  owed2 == IF ok /\ r.get THEN cl.owed
+                  \* a refusal owes an unsubscribe - unless the gateway asks again (a request sent after the refused one, e.g.
+                  \* because a further trigger made it discard the answer for the re-check) and is granted then
+                  owed2 == IF ok /\ r.get THEN [rid \in {x \in DOMAIN cl.owed : KeyOf(cl, x) # r.key} |-> cl.owed[rid]]
                            ELSE [rid \in hit |-> code] @@ cl.owed
               IN Res(SetConn(o1, r.c, [cl EXCEPT !.grant = Put(cl.grant, r.key, Append(GrantsOf(cl, r.key), g)),
                                                  !.recheck = [rid \in DOMAIN cl.recheck \ hit |->
